@@ -444,7 +444,14 @@ func ConcatOffset(p *core.Prog, r *core.Report) {
 		return
 	}
 	z, isZ := core.ConstInt(info, tr.Args[0])
-	lc, isL := ast.Unparen(tr.Args[1]).(*ast.CallExpr)
+	off := tr.Args[1]
+	if id, ok := ast.Unparen(off).(*ast.Ident); ok {
+		// a local holding the offset: its single definition inside the loop over the pieces, before the append
+		if as := core.Assigns(info, outer.Body)[core.ObjOf(info, id)]; len(as) == 1 && as[0].RHS != nil && as[0].Pos < appendPos {
+			off = as[0].RHS
+		}
+	}
+	lc, isL := ast.Unparen(off).(*ast.CallExpr)
 	if !isZ || z != 0 || !isL || !core.IsBuiltin(info, lc, "len") || core.ObjOf(info, lc.Args[0]) != acc {
 		r.Bad("CONCAT-OFFSET", key, p.Pos(tr.Pos()), "the features of a later piece are moved by `"+types.ExprString(tr.Args[1])+"` from `"+types.ExprString(tr.Args[0])+"`, not by len of the accumulated residues from 0")
 		return
